@@ -24,9 +24,9 @@ IsEvent(n) == l <= Len(Tr) /\ Ev.event = n /\ l' = l + 1
 
 TInit == l = 2 /\ Init
 TReset == /\ IsEvent("Reset")
-          /\ buckets' = << <<>> >> /\ res' = "init" /\ nops' = 0 /\ act' = [name |-> "Init"]
-TUpdate == IsEvent("Update") /\ Update(Ev.p) /\ res' = Ev.res /\ buckets' = Ev.buckets
-TRemove == IsEvent("Remove") /\ Remove(Ev.p) /\ buckets' = Ev.buckets
+          /\ buckets' = << <<>> >> /\ addr' = [p \in DOMAIN IdBits |-> 0] /\ res' = "init" /\ nops' = 0 /\ act' = [name |-> "Init"]
+TUpdate == IsEvent("Update") /\ Update(Ev.p, Ev.a) /\ res' = Ev.res /\ buckets' = Ev.buckets /\ addr' = Ev.addr
+TRemove == IsEvent("Remove") /\ Remove(Ev.p) /\ buckets' = Ev.buckets /\ addr' = Ev.addr /\ ~Ev.found
 TNearest == /\ IsEvent("Nearest") /\ NearestPeers(Ev.t, Ev.n)
             /\ act'.out = Ev.out
             /\ NearestOKFor(buckets, Ev.t, Ev.n, Ev.out)
